@@ -258,7 +258,27 @@ func nondetExtractor(repo string) (map[string]string, error) {
 				return ok && p.pkg != nil && v.Parent() == p.pkg.Scope()
 			}
 			visit := func(fn string, recv *ast.Ident, recvPtr bool, recvType string, body ast.Node) {
+				var stack []ast.Node
+				// the statement (or declaration) a call sits in: its text is what gets hashed for wallClock / random / getenv
+				enclosing := func() ast.Node {
+					for i := len(stack) - 1; i >= 0; i-- {
+						switch stack[i].(type) {
+						case *ast.BlockStmt:
+							continue
+						case ast.Stmt, *ast.ValueSpec:
+							return stack[i]
+						case *ast.FuncType, *ast.FuncLit, *ast.FuncDecl:
+							return stack[len(stack)-1] // inside a signature: the expression itself
+						}
+					}
+					return stack[len(stack)-1]
+				}
 				ast.Inspect(body, func(n ast.Node) bool {
+					if n == nil {
+						stack = stack[:len(stack)-1]
+						return true
+					}
+					stack = append(stack, n)
 					switch x := n.(type) {
 					case *ast.RangeStmt:
 						if t := p.info.TypeOf(x.X); t != nil {
@@ -274,11 +294,11 @@ func nondetExtractor(repo string) (map[string]string, error) {
 								path := imports[id.Name]
 								switch {
 								case path == "time" && (x.Sel.Name == "Now" || x.Sel.Name == "Since" || x.Sel.Name == "Until"):
-									add("wallClock", fn, "time."+x.Sel.Name, x)
+									add("wallClock", fn, "time."+x.Sel.Name, enclosing())
 								case path == "math/rand" || path == "math/rand/v2" || path == "crypto/rand":
-									add("random", fn, path+"."+x.Sel.Name, x)
+									add("random", fn, path+"."+x.Sel.Name, enclosing())
 								case path == "os" && (x.Sel.Name == "Getenv" || x.Sel.Name == "LookupEnv" || x.Sel.Name == "Environ"):
-									add("getenv", fn, "os."+x.Sel.Name, x)
+									add("getenv", fn, "os."+x.Sel.Name, enclosing())
 								}
 							}
 						}
